@@ -8,9 +8,10 @@ From SCC Require Import Base.Sexp Lang.AxSyn Sem.AxSem Model.ParMoves Model.Back
 Import ListNotations.
 Open Scope Z_scope.
 Open Scope list_scope.
+(* names that lived in this file before they moved to Proof/SimFrag.v (kept for qualified uses) *)
+Notation entry_int := SimFrag.entry_int (only parsing).
 
-(* the entry definition takes integers (the arguments of asm_main) *)
-Definition entry_int (p : prog) : bool := match pdefs p with d :: _ => ctx_int (dctx d) | [] => true end.
+(* entry_int: Proof/SimFrag.v *)
 
 Lemma asm_wf_enc cs : asm_wf cs = None -> forall c, In c cs -> instr_wf c = true.
 Proof.
